@@ -129,7 +129,7 @@ func serveWire(rc *fasthttp.RequestCtx, h fasthttp.RequestHandler, raw string) {
 			if r := recover(); r != nil {
 				rc.Response.Reset()
 				rc.Response.SetStatusCode(599)
-				rc.Response.SetBodyString(fmt.Sprint("PANIC: ", r))
+				rc.Response.SetBodyString(fmt.Sprint("PANIC: ", r, panicSite()))
 			}
 		}()
 		h(rc)
@@ -226,7 +226,8 @@ func TestC05(t *testing.T) {
 	var ptrs []string
 	h := c05App(&ptrs)
 	rc := &fasthttp.RequestCtx{}
-	var n, nReused int
+	var n, nReused, nFreshApps int
+	var shared fasthttp.RequestHandler
 	readCases(t, "VERIF_CASES", func(line []byte) {
 		var cs struct {
 			Hist  []string `json:"hist"`
@@ -237,9 +238,26 @@ func TestC05(t *testing.T) {
 		}
 		n++
 		ptrs = ptrs[:0]
-		// a fresh application per history: state the application keeps on its own (the SendFile handler store, route tables)
-		// must start empty, so that what the probe sees can only come from THIS history
-		h = c05App(&ptrs)
+		// State the application keeps on its own (the SendFile handler store) must start empty for a history that uses it, so that
+		// what the probe sees can only come from THIS history: such histories get a fresh application.  Every SendFile handler owns a
+		// file-cache goroutine and keeps the file open for its cache duration, so their number per process is capped (beyond the cap
+		// the shared application is used, which is sound but sees only the first configuration of its lifetime); the shared
+		// application itself is renewed every 1000 histories.
+		usesSendFile := cs.Probe == "sendfile"
+		for _, k := range cs.Hist {
+			if k == "sendfilemaxage" {
+				usesSendFile = true
+			}
+		}
+		if usesSendFile && nFreshApps < 4000 {
+			nFreshApps++
+			h = c05App(&ptrs)
+		} else {
+			if shared == nil || n%1000 == 1 {
+				shared = c05App(&ptrs)
+			}
+			h = shared
+		}
 		for i, k := range cs.Hist {
 			serveWire(rc, h, c05Request(k, fmt.Sprintf("R%d", i+1)))
 		}
@@ -267,7 +285,7 @@ func TestC05(t *testing.T) {
 			debug.SetGCPercent(-1)
 		}
 	})
-	o.summary(map[string]any{"cases": n, "probe_served_by_the_context_of_the_preceding_request": nReused, "violations": o.nV})
+	o.summary(map[string]any{"cases": n, "probe_served_by_the_context_of_the_preceding_request": nReused, "histories_on_a_fresh_application": nFreshApps, "violations": o.nV})
 }
 
 // TestC05Conc: the same histories, run by several goroutines at once against ONE app (shared context, redirect, binder and
